@@ -525,7 +525,7 @@ class NpCalls:
         x = as_array(args[0])
         m = mono_of(x)
         return x.only('ty', 'geo', 'axes').w(deps=self.deps_of(args, kwargs), store='fresh', mono=m.wrap('diff') if m is not None else None,
-                                             diff_of=x, signed=True)
+                                             diff_of=x, signed=True, diff_src=interp.sx(node.args[0]) if (node is not None and node.args) else None)
 
     def np_maximum_accumulate(self, interp, st, args, kwargs, node):
         if 'out' in kwargs:
@@ -631,7 +631,13 @@ class NpCalls:
             else:
                 tag = name if name not in ('amin', 'amax') else name[1:]
                 nm = m.wrap(f'{tag}[{",".join(sorted(removed))}]' if removed else tag)
-        out = AV(ty='ndarray' if (new_axes is None or len(new_axes) > 0) else 'float', geo=ng, axes=new_axes, deps=d,
+        width = None
+        if name in ('min', 'amin'):
+            if x.diff_of is not None and node is not None:
+                width = x.diff_src
+            elif x.pair_width is not None:
+                width = x.pair_width
+        out = AV(ty='ndarray' if (new_axes is None or len(new_axes) > 0) else 'float', minwidth=width, geo=ng, axes=new_axes, deps=d,
                  store='fresh', mono=nm, red=(name, x, axis, tuple(sorted(removed))), idx=x.idx if name in ORDER_REDUCERS else None,
                  mono_unknown=x.mono_unknown)
         if name in ('any', 'all'):
